@@ -81,4 +81,55 @@ def dispatchSpec (rcBlank : Int) (toks : List Str) (tables : List (List Str × N
     | none => ⟨ENOENT, none⟩
     | some (k, drop) => ⟨0, some (k, (toks.length : Int) - drop, toks.drop drop)⟩
 
+
+/-! ### paths, component-wise -/
+
+/-- the pieces between slashes (always at least one: `""` gives `[""]`,
+`"/a"` gives `["", "a"]`, `"a/"` gives `["a", ""]`) -/
+def splitSlash : Str → List Str
+  | [] => [[]]
+  | c :: cs =>
+    if c == SLASH then [] :: splitSlash cs
+    else match splitSlash cs with
+      | [] => [[c]]
+      | p :: ps => (c :: p) :: ps
+
+def joinSlash (cs : List Str) : Str := List.intercalate [SLASH] cs
+
+/-- a component that counts: not empty and not `"."` -/
+def isReal (c : Str) : Bool := !c.isEmpty && c != [DOT]
+
+/-- the components of a path: `"/dev/./null"` gives `["dev", "null"]` -/
+def comps (p : Str) : List Str := (splitSlash p).filter isReal
+
+/-- drop leading slashes and single dots: the path from its first real component on -/
+def skipRef (p : Str) : Str := joinSlash ((splitSlash p).dropWhile (fun c => !isReal c))
+
+/-- the first piece of a path (up to the first slash) -/
+def headComp (p : Str) : Str := p.takeWhile (· != SLASH)
+
+/-- one step of `path_iterate` on a non-empty path: leave the first piece
+(a leading slash counts as an empty piece), go to the next real component -/
+def iterRef (p : Str) : Str := joinSlash ((splitSlash p).tail.dropWhile (fun c => !isReal c))
+
+/-- lexicographic comparison of `char` strings (`char` is signed) -/
+def lexCmp : Str → Str → Int
+  | [], [] => 0
+  | [], _ :: _ => -1
+  | _ :: _, [] => 1
+  | x :: xs, y :: ys => if x == y then lexCmp xs ys else if x.slt y then -1 else 1
+
+/-- `path_remove_prefix`: while both paths are non-empty and their first pieces
+are equal, step both to their next component; what is left of `path` -/
+def removePrefixRef : Nat → Str → Str → Str
+  | 0, p, _ => p
+  | f + 1, p, q =>
+    if p.isEmpty || q.isEmpty then p
+    else if headComp p == headComp q then removePrefixRef f (iterRef p) (iterRef q)
+    else p
+
+
+/-- enough steps for any `p`: every step shortens it -/
+def removePrefixSpec (p q : Str) : Str := removePrefixRef (p.length + 1) p q
+
 end Igris.C19
